@@ -219,7 +219,7 @@ impl Type {
             Type::Mut(element) => Some(element.as_ref().clone()),
             Type::Multi(multi) => {
                 let mut iter = multi.iter();
-                let first = iter.next().unwrap().element_type()?;
+                let first = iter.next().unwrap().mut_element_type()?;
                 iter.map(Self::mut_element_type)
                     .try_fold(first, |acc, curr| Some(acc | curr?))
             }
